@@ -180,6 +180,22 @@ def synthetic_shapes():
         [(T0 + i * d30, i) for i in range(45)],
         [(i * 300, i % 2, ("L%03d" % i)[(i % 3):]) for i in range(45)],
         abbr_table=(big, [i * 5 + (i % 3) for i in range(45)]))
+    # more than 128 types: transition TYPE INDICES, isstd/isgmt positions and abbreviation indices >= 128
+    # (all three one-byte tables are unsigned in tzfile(5); seed C06E)
+    S["types_200_solar_indices_ge_128"] = mk_tzif(
+        [(T0 + i * 7 * d, (i * 37) % 200) for i in range(230)],
+        [(15000 + i * 8, 0, "LMT") for i in range(200)],
+        isstd=[i % 2 for i in range(200)], isgmt=[(i // 3) % 2 for i in range(200)],
+        abbr_table=(b"LMT\0", [0] * 200))
+    t256 = (b"AB\0" * 85) + b"\0"                                                    # 256 bytes
+    i256 = [(i * 3) % 255 if i < 255 else 255 for i in range(256)]
+    S["types_256_all_used_abbrind_255"] = mk_tzif(
+        [(T0 + i * 11 * d, 255 - i) for i in range(256)],
+        [(-43200 + i * 300, i % 2, "AB" if k < 255 else "") for i, k in zip(range(256), i256)],
+        isstd=[1] * 256, isgmt=[i % 2 for i in range(256)], abbr_table=(t256, i256))
+    S["types_129_last_index_128"] = mk_tzif(
+        [(T0 + i * d30, i) for i in range(129)], [(i * 60, 0, "T") for i in range(129)],
+        abbr_table=(b"T\0", [0] * 129), isstd=[0] * 128 + [1], isgmt=[0] * 128 + [1])
     S["forward_larger_than_spacing"] = mk_tzif(
         [(T0, 1), (T0 + 1800, 2), (T0 + 100 * d, 0), (T0 + 200 * d, 1)],
         [(0, 0, "AAA"), (2 * H, 0, "BBB"), (5 * H, 0, "CCC")])
